@@ -221,3 +221,48 @@ Theorem C17_generated_keys_usable :
 Proof. exact (generated_keys_usable). Qed.
 Print Assumptions C17_generated_keys_usable.
 
+
+(* keyring keywords, separators, the name limit and the base64 use of the CURRENT sources (tools/extract.py), tied to the
+   model's own constants and functions *)
+(* a Rust format string with "{}" placeholders filled from a list of texts *)
+Fixpoint x_fmt (f : text) (args : list text) : text :=
+  match f with
+  | [] => []
+  | c :: r =>
+    match r with
+    | d :: r' =>
+      if ((c =? 123) && (d =? 125))%bool
+      then match args with a :: rest => a ++ x_fmt r' rest | [] => x_fmt r' [] end
+      else c :: x_fmt r args
+    | [] => [c]
+    end
+  end.
+
+Theorem C17_keyword_constants :
+  x_kr_kw_hdr = s_hdr /\ x_kr_kw_name = s_name /\ x_kr_kw_pub = s_pub /\ x_kr_kw_priv = s_priv /\
+  x_kr_comment_char = c_hash /\ x_kr_strip_char = c_tab /\ x_kr_split_chars = [c_eq; c_eq; c_eq] /\
+  x_kr_trim_calls = 4 /\ x_kr_lines_calls = 1 /\
+  (* serialize_key of the model IS the extracted format string *)
+  x_kr_serialize_args = [RParam 0; RParam 1; RParam 2] /\
+  (forall name pk sk : text, serialize_key name pk sk = x_fmt x_kr_serialize_fmt [name; pk; sk]) /\
+  (* the name bound: the model's limit and predicate are the extracted ones *)
+  x_kr_max_name_size = MAX_NAME_SIZE /\ x_kr_name_forbidden_char = c_tab /\ x_kr_name_empty_rejected = 1 /\
+  (forall name : text,
+     valid_key_name name =
+     negb (is_empty name || (x_kr_max_name_size <? utf8_len name) || existsb (fun c => c =? x_kr_name_forbidden_char) name)) /\
+  (* key strings: base64 "Original" with padding, strict (ignore = None), ct-codecs 1.1.3 (what Spec/Base64.v transcribes);
+     36 = 32 + 4 and 84 bytes *)
+  x_kr_b64_codec_is_original = 1 /\ x_kr_b64_ignore_is_none = 1 /\ x_kr_b64_decode_calls = 4 /\ x_kr_b64_encode_calls = 2 /\
+  x_dep_ct_codecs_version = [1; 1; 3] /\
+  x_kr_encoded_pk_try_len = x_kr_encoded_pk_len /\ x_kr_encoded_sk_try_len = x_kr_private_key_ct_len /\
+  (forall s : text, pk_string_ok s = match b64_decode s with Some b => Nat.eqb (length b) (N.to_nat x_kr_encoded_pk_try_len) | None => false end) /\
+  (forall s : text, sk_string_ok s = match b64_decode s with Some b => Nat.eqb (length b) (N.to_nat x_kr_encoded_sk_try_len) | None => false end) /\
+  (* the lines change-pass and extract-pub print *)
+  (forall s : text, x_fmt x_cli_change_pass_fmt [s] = s_priv ++ s_sp_eq_sp ++ s) /\
+  (forall s : text, x_fmt x_cli_extract_pub_fmt [s] = s_pub ++ s_sp_eq_sp ++ s) /\
+  (forall s : text, x_fmt x_cli_gen_append_fmt [s] = c_nl :: s) /\
+  x_cli_change_pass_fmt_tty = c_nl :: x_cli_change_pass_fmt.
+Proof.
+  repeat split; intros; try reflexivity; cbn; rewrite ?app_nil_r; reflexivity.
+Qed.
+Print Assumptions C17_keyword_constants.
